@@ -121,6 +121,13 @@ Fixpoint add_slack (P : model) (a0 : nat) (n i : nat) (log_trick : bool) (hi : Q
 
 Definition AND_of_key (k : key) : expr := e_and (map EL k).     (* AND of the labels of a key *)
 
+(* ancillas = PUBO(); ancillas[(next_ancilla,)] += 1, n times *)
+Fixpoint mk_ancs (A : model) (a0 i n0 : nat) : result model :=
+  match n0 with
+  | O => Ok A
+  | S n' => bind (m_additem A [anc_label (a0 + i)] 1) (fun A' => mk_ancs A' a0 (S i) n')
+  end.
+
 (* _special_constraints_le_zero; returns the new model (with its ancilla counter) when a special form applies *)
 Definition special_le (m : model) (P : model) (lam : Q) (log_trick : bool) (lo hi : Q) : result (option (model * tag)) :=
   let off := get_sq (tm P) [] in
@@ -130,11 +137,7 @@ Definition special_le (m : model) (P : model) (lam : Q) (log_trick : bool) (lo h
     bind (iadd_m m X) (fun m' => Ok (Some (m', TLeAtMostOne))))
   else if negb log_trick && qeq0 (lo - off) && negb (qgt0 off) && negb (qeq0 lo) then
     bind (num_bits (- off) false) (fun n =>
-    bind ((fix mk (A : model) (i n0 : nat) : result model :=
-             match n0 with
-             | O => Ok A
-             | S n' => bind (m_additem A [anc_label (anc m + i)] 1) (fun A' => mk A' (S i) n')
-             end) (empty_model KPubo) 0%nat n) (fun ancs =>
+    bind (mk_ancs (empty_model KPubo) (anc m) 0%nat n) (fun ancs =>
     bind (ev (EBin false OpSub (EM Pwo) (EM ancs))) (fun diff =>
     bind (ev (EBin false OpMul (lamP lam diff) (EM diff))) (fun X =>
     bind (iadd_m (with_anc m (anc m + n)) X) (fun m' => Ok (Some (m', TLeUnarySlack)))))))
